@@ -32,6 +32,10 @@ import struct
 
 from harness import c03_ref as R
 from harness import valcodec as vc
+try:                                    # the shared type-directed generator of C01/C02 (second source of bodies)
+    from harness import gen_values as gv
+except Exception:                       # pragma: no cover - the local generator below is always available
+    gv = None
 
 STREAMS = ['build', 'construct-malformed', 'parse-own', 'spec-bytes', 'parse-foreign', 'parse-wrongtype']
 THEOREMS = ['marshal_wellformed', 'serial_fresh', 'parse_marshal', 'parse_foreign', 'cannot_construct']
@@ -367,6 +371,30 @@ def g_variant(rng, marshal):
     return n, R.Var('x', n)
 
 
+def sv_to_abs(ty, sv):
+    """A spec value of harness/gen_values.py as an abstract value of harness/c03_ref.py."""
+    if isinstance(ty, str):
+        if ty == 'v':
+            return R.Var(gv.render(sv[1]), sv_to_abs(sv[1], sv[2]))
+        return sv
+    if ty[0] == 'a':
+        el = ty[1]
+        if not isinstance(el, str) and el[0] == '{':
+            return [(sv_to_abs(el[1], k), sv_to_abs(el[2], v)) for k, v in sv]
+        return [sv_to_abs(el, e) for e in sv]
+    if ty[0] == '(':
+        return [sv_to_abs(f, e) for f, e in zip(ty[1], sv)]
+    return (sv_to_abs(ty[1], sv[0]), sv_to_abs(ty[2], sv[1]))
+
+
+def g_body_shared(rng, allow_h):
+    """A body from the shared generator (deeper nesting, dbusOrder objects, boundary values)."""
+    vc.register_obj_class(gv.DbusOrderStruct, 0)
+    tys, svs, pvs, fds, _ = gv.gen_case(rng, depth=3, max_n=3, allow_fd=allow_h, allow_variant=True)
+    sig = gv.render_all(tys)
+    return sig, list(pvs), [sv_to_abs(t, s) for t, s in zip(tys, svs)], len(fds)
+
+
 def g_body(rng, marshal, allow_h):
     """Returns (signature or None, python values or None, abstract values, number of descriptors)."""
     r = rng.random()
@@ -374,6 +402,14 @@ def g_body(rng, marshal, allow_h):
         return None, None, [], 0
     if r < 0.30:
         return '', rng.choice([None, []]), [], 0
+    if gv is not None and r < 0.60:
+        try:
+            sig, py, ab, nfd = g_body_shared(rng, allow_h)
+            if sig:
+                vc.to_line(list(py))          # must be expressible for the replay file
+                return sig, py, ab, nfd
+        except Exception:
+            pass
     n = rng.choice([1, 1, 2, 3])
     types = [g_type(rng, 0, allow_h and rng.random() < 0.5) for _ in range(n)]
     if allow_h and rng.random() < 0.25:
@@ -1217,7 +1253,7 @@ def run(ctx):
             replay_case(ctx, marshal, message, data['input'] if 'input' in data else data)
             ctx.stat('corpus')
         rng = ctx.rng
-        n = ctx.scale(quick=1200, thorough=24000)
+        n = ctx.scale(quick=3000, thorough=40000)
         cases = [g_case(rng, marshal) for _ in range(n)]
         built = run_build_stream(ctx, marshal, message, 'build', cases)
         for x, obs, m, oob in built:
@@ -1226,11 +1262,11 @@ def run(ctx):
             if obs['ok']:
                 ctx.stat('build:len=%s' % ('<64' if len(m.rawMessage) < 64 else '<256' if len(m.rawMessage) < 256 else '>=256'))
         run_parse_own(ctx, message, built)
-        mal = run_malformed(ctx, marshal, message, ctx.scale(quick=700, thorough=12000))
+        mal = run_malformed(ctx, marshal, message, ctx.scale(quick=1500, thorough=20000))
         run_parse_own(ctx, message, mal)
-        run_foreign(ctx, marshal, message, ctx.scale(quick=800, thorough=16000))
-        run_wrongtype(ctx, marshal, message, ctx.scale(quick=500, thorough=8000))
-        for _ in range(ctx.scale(quick=3, thorough=20)):
+        run_foreign(ctx, marshal, message, ctx.scale(quick=2000, thorough=30000))
+        run_wrongtype(ctx, marshal, message, ctx.scale(quick=1200, thorough=15000))
+        for _ in range(ctx.scale(quick=6, thorough=40)):
             run_serial_sequence(ctx, marshal, message, 150)
         if ctx.tier == 'thorough' and not ctx.widen:
             run_real_limit(ctx, marshal, message)
